@@ -519,10 +519,14 @@ def regsOk (s : MSt) : Bool := s.st.regs.all fun (v, d) => wfDataB d && d.size =
 def objsOk (s : MSt) : Bool := s.objs.all fun (_, o) => o.mem.all fun c => wfDataB c.2
 
 /-- the step is inside the PROVED fragment (on the state before the step) -/
-def defInFrag (s : MSt) : Def → Bool
+def defInFrag (s : MSt) (d : Def) : Bool :=
+  nullFree s d &&
+  match d with
   | .Assign x e => decide (C12.WellSized e) && e.bytesize == x.size
-  | .Store a v => decide (C12.WellSized a) && decide (C12.WellSized v) && s.storeFrag a
-  | .Load x a => decide (C12.WellSized a) && x.size > 0 && s.loadFrag a
+  | .Store a v =>
+    decide (C12.WellSized a) && decide (C12.WellSized v) && a.bytesize == 8 && decide (v.bytesize ≤ 8) &&
+      s.storeFrag a && s.storeBounded a v.bytesize
+  | .Load x a => decide (C12.WellSized a) && a.bytesize == 8 && x.size > 0 && decide (x.size ≤ 8) && s.loadFrag a
 
 /-- the broader class evaluated with well-separated identifier bases only: every concrete address is a
 relative target (no absolute part, no top flag for stores) -/
@@ -641,7 +645,7 @@ def handleSc (j : Json) : Except String String := do
     return s!"spec class=sc-impl-{(m.splitOn ":").headD "panic"}:{kind} expected=state impl={m.take 100}"
   let impl : Option MSt ← if implJ == Json.null then pure none else some <$> parseImplState implJ s0.st.globals sid gid
   let model := specializeConditional s0 cond isTrue
-  let inFrag := condFrag cond && ptrCmpFree s0 cond isTrue && decide (C12.WellSized cond) && regsOk s0
+  let inFrag := condFrag cond && ptrCmpFree s0 cond isTrue && leavesOk s0 cond && decide (C12.WellSized cond) && regsOk s0
   -- the soundness statement on the implementation output: a concrete state in γ of the input state in which the
   -- condition has the truth value of the branch is in γ of the specialised state (which exists)
   let mut sat := 0
